@@ -1326,11 +1326,23 @@ class Transport(threading.Thread, ClosingContextManager):
             if len(self.server_accepts) > 0:
                 chan = self.server_accepts.pop(0)
             else:
-                self.server_accept_cv.wait(timeout)
+                # Wait in short slices, like everything else that waits on this
+                # transport, so that the wait also ends when the session does
+                # (nothing notifies this condition when the transport is
+                # closed locally).
+                end = None if timeout is None else time.time() + timeout
+                while len(self.server_accepts) == 0 and self.active:
+                    if end is None:
+                        self.server_accept_cv.wait(0.1)
+                    else:
+                        remaining = end - time.time()
+                        if remaining <= 0:
+                            break
+                        self.server_accept_cv.wait(min(0.1, remaining))
                 if len(self.server_accepts) > 0:
                     chan = self.server_accepts.pop(0)
                 else:
-                    # timeout
+                    # timeout, or the session is gone
                     chan = None
         finally:
             self.lock.release()
